@@ -1029,6 +1029,10 @@ class Interp:
                     return f
                 if "classmethod" in decs:
                     return f.bind(VClass(cls))
+                g = self.apply_decorators(f, fn, owner.module)
+                if g is not f:
+                    return VBuiltin("decorated:" + f.qualname,
+                                    lambda it, a, k, n, g=g, obj=obj: it.call(g, [obj] + list(a), k, n))
                 return f.bind(obj)
             if found is not None and owner is not None and isinstance(owner, ClassInfo):
                 sub = Interp(self.ctx, self.reg, spec=self.spec)
@@ -1047,6 +1051,20 @@ class Interp:
             raise Unsupported(f"attribute {name!r} of {obj!r} in spec")
         # hasattr-style miss
         return lib.missing_attr(self, obj, name, node)
+
+    _PLAIN_DECORATORS = ("property", "staticmethod", "classmethod", "cached_property", "overload", "abstractmethod")
+
+    def apply_decorators(self, f, fn, module):
+        """apply the function's real decorators (executed from their own source), innermost first"""
+        decs = [d for d in fn.decorator_list
+                if not any(ast.unparse(d).split(".")[-1] == p or ast.unparse(d).endswith(".setter") for p in self._PLAIN_DECORATORS)]
+        if not decs:
+            return f
+        g = f
+        for d in reversed(decs):
+            dv = self.eval(d, Env(vars={"__module__": module}))
+            g = self.call(dv, [g], {}, d)
+        return g
 
     def setattr(self, obj, name, v, node=None):
         obj = self.need(obj)
@@ -1151,6 +1169,12 @@ class Interp:
         c = self.reg.contracts.get(key) if key else None
         top = self.reg.contracts.get(self.current_target) if self.current_target else None
         if c is not None and top is not None and key in top.inline_callees:
+            c = None
+        plain_target = self.current_target.split("#")[0] if self.current_target else None
+        if key is not None and key == plain_target and not getattr(self, "_entered_target", False):
+            # first entry into the function under verification (possibly through its decorators): its body is
+            # executed; only recursive calls use its own contract
+            self._entered_target = True
             c = None
         if c is not None and not c.inline and not (self.depth == 0 and key == self.current_target):
             from .callspec import apply_contract
